@@ -515,7 +515,20 @@ int main()
       if(a.size() == 0) bad = true;
       else { if(&a.back() != &((const L&)a).back()) printf("back-differs "); setRet(a.back()); show = 1; }
     }
-    else if(hxIs(l, "lsort", 1)) { a.sort(); show = 1; }
+    else if(hxIs(l, "lsort", 1))
+    {
+      // iterators held across sort(): each must still be reached by the same number of increments from begin()
+      size_t n = a.size(), i = 0;
+      L::Iterator* held = (L::Iterator*)malloc((n + 1) * sizeof(L::Iterator));
+      for(L::Iterator it = a.begin(); i <= n; ++i) { held[i] = it; if(i < n) ++it; }
+      a.sort();
+      bool moved = a.size() != n;
+      i = 0;
+      for(L::Iterator it = a.begin(); i <= n && !moved; ++i) { if(held[i] != it) moved = true; if(i < n) ++it; }
+      free(held);
+      if(moved) printf("iterators-moved ");
+      show = 1;
+    }
     // ---- PoolList ----
     else if(hxIs(l, "pappend", 2)) { int& r = p.append((int)hxInt(l, 2)); setRet(posOfRef(p, &r)); show = 3; }
     else if(hxIs(l, "premove", 2))
